@@ -46,15 +46,45 @@ func c17Contents(r *rng, st *stats) []string {
 	n := r.rangeInt(3, 5)
 	out := []string{""}
 	for i := 0; i < n; i++ {
-		if r.chance(45) {
+		switch {
+		case len(out) > 1 && r.chance(40):
+			// a small edit of an earlier content (what typing produces): old and new token arrays
+			// share a long prefix and suffix, and repeated blocks make the relative encoding repeat
+			out = append(out, c17Variant(r, out[1+r.intn(len(out)-1)]))
+			st.count("content:variant")
+		case r.chance(45):
 			out = append(out, pick(r, c17Fixed))
 			st.count("content:fixed")
-		} else {
+		default:
 			out = append(out, c01Doc(r, st))
 			st.count("content:generated")
 		}
 	}
 	return out
+}
+
+// c17Variant duplicates, removes or moves a block of 1..4 lines of a text.
+func c17Variant(r *rng, base string) string {
+	lines := strings.Split(base, "\n")
+	if len(lines) < 2 {
+		return base + "\n2024-01-01 x\n    a:b  1 USD\n    c:d\n"
+	}
+	i := r.intn(len(lines))
+	k := r.rangeInt(1, 4)
+	if i+k > len(lines) {
+		k = len(lines) - i
+	}
+	block := append([]string(nil), lines[i:i+k]...)
+	switch r.intn(3) {
+	case 0: // duplicate the block right behind itself
+		rest := append([]string(nil), lines[i+k:]...)
+		lines = append(append(lines[:i+k], block...), rest...)
+	case 1: // remove it
+		lines = append(lines[:i], lines[i+k:]...)
+	default: // duplicate it at the end
+		lines = append(lines, block...)
+	}
+	return strings.Join(lines, "\n")
 }
 
 func u16LineLens(s string) []string {
